@@ -39,6 +39,8 @@ CONSTANTS Shape, NMin, NMax,
           RecMode,        \* "pick": Recover(sel) after Pick steps (one state per sel);
                           \* "all" : one step logging Recover for EVERY sel (compact generator)
           CheckDecIndex,  \* TRUE = design with dec.S.I = enc.S.I required
+          HashDecBase,    \* TRUE = design in which the decryption challenge also covers the decrypted value (the base
+                          \* of the second DLEQ equation); FALSE = pinned code (H(X, encV, VG, VH) only)
           Rels            \* shape "dleq": relations between the two bases of a statement,
                           \* subset of {"indep", "HeqG", "HnegG", "H2G", "Hid", "Gid"}
 
@@ -106,6 +108,8 @@ EncImpl(p) ==
 
 DecImpl(p) ==
   LET d == dec[p] IN
+  IF \A fl \in {"V", "C", "R", "VG", "VH"} : d[fl] = Forg
+    THEN (IF HashDecBase \/ key[p] # p \/ enc[p].V # p \/ (CheckDecIndex /\ d.I # enc[p].I) THEN "rej" ELSE "acc") ELSE
   IF ~(\E o \in Pos : key[p] = o /\ enc[p].V = o /\ d.VG = o /\ d.VH = o /\ d.C = o)
     THEN "rej"                                                     \* recomputed challenge
   ELSE IF ~(\E o \in Pos : /\ d.VG = o /\ d.R = o /\ d.C = o /\ key[p] = o      \* vG == rG + cX
@@ -172,7 +176,11 @@ EncMuts == {M(f, p, 0) : f \in ShareFields \cup {"key", "forge", "dforge"}, p \i
       \cup {M("com", j, 0) : j \in 0..(t - 1)}
       \cup PairMuts({"swapS", "swapP", "swapB"})
 
-DecMuts == {M(f, p, 0) : f \in ShareFields \cup {"key", "encV", "forge"}, p \in Pos}
+\* "tforge": a malicious TRUSTEE (it knows its key x) publishes a wrong decrypted value with a proof built backwards:
+\* VG = vG, VH = an arbitrary point W, c = the honest recomputation H(X, encV, VG, W), r = v - c*x, and the value
+\* V' = r^-1 (W - c*encV) that makes the second equation hold. Every equation and the challenge check of the pinned code
+\* hold, because the decrypted value is not part of what the challenge hashes (tag Forg).
+DecMuts == {M(f, p, 0) : f \in ShareFields \cup {"key", "encV", "forge", "tforge"}, p \in Pos}
       \cup ({M("I", p, i) : p \in Pos, i \in (1..(n + 1))} \ {M("I", p, p) : p \in Pos})
       \cup PairMuts({"swapS", "swapP", "swapB"})
 
@@ -186,6 +194,7 @@ PrfMuts == {M(f, p, 0) : f \in {"G", "H", "xG", "xH", "C", "R", "VG", "VH", "swa
 RecAfter(f, m) ==
   CASE m.k \in ShareFields \cup {"oV", "sH", "gc", "G", "H", "xG", "xH"} -> SetField(f, m.p, m.k, Alt)
     [] m.k = "I"      -> SetField(f, m.p, "I", m.q)
+    [] m.k = "tforge" -> [f EXCEPT ![m.p] = [fl \in DOMAIN f[m.p] |-> IF fl \in ShareFields THEN Forg ELSE f[m.p][fl]]]
     [] m.k = "dforge" -> [f EXCEPT ![m.p] = [fl \in DOMAIN f[m.p] |-> IF fl \in {"V", "VG", "VH"} THEN Forg
                                                                    ELSE IF fl \in {"C", "R"} THEN Alt ELSE f[m.p][fl]]]
     [] m.k = "forge"  -> [f EXCEPT ![m.p] = [fl \in DOMAIN f[m.p] |-> IF fl \in ShareFields THEN Alt ELSE f[m.p][fl]]]
